@@ -436,6 +436,46 @@ def _mcp_check(tier, seed):
                 findings.append({'prop': 'C07', 'kind': 'mcp_year_boundary', 'case': 0, 'input': d, 'data': {},
                                  'detail': f'calculate_report(year={want[d] - 1}) lists the disposal of {d}, which belongs to {want[d]}'})
         log(f'[mcp] {nb} boundary-date requests (5/6 April, leap days, year ends 2015-2025) through the real server')
+        # ---- C08 through the MCP front-end: get_fx_rate for a spread of currencies and months (incl. the first and last
+        # bundled month, lower-case codes, a month without rates, an unknown currency, month 13): the bundled XML text decides
+        import re as _re
+        rates_dir = os.path.join(common.REPO, 'crates/cgt-money/resources/rates')
+        months = sorted(f[:-4] for f in os.listdir(rates_dir) if f.endswith('.xml'))
+        probes = [('USD', months[0]), ('usd', months[-1]), ('EUR', months[len(months) // 2]), ('jpy', months[len(months) // 3]), ('CHF', '2024-02'),
+                  ('AUD', '2020-02'), ('USD', '2031-04'), ('XXX', '2024-01'), ('USD', '2024-13'), ('EUR', '2024-00')]
+        fcls, script = dict(cls), []
+        for i_, (cur, ym) in enumerate(probes):
+            fcls[f'fxp_{i_}'] = call('get_fx_rate', {'currency': cur, 'year': int(ym[:4]), 'month': int(ym[5:])})
+            script.append(('send', f'fxp_{i_}'))
+        ev, resp = play(root, 'fxprobe', script, fcls, patience=20)
+        sent = {e['id']: e['class'] for e in ev if e['event'] == 'Send'}
+        for rid, k in sent.items():
+            if not k.startswith('fxp_'):
+                continue
+            cur, ym = probes[int(k[4:])]
+            want = None
+            path = os.path.join(rates_dir, ym + '.xml')
+            if os.path.exists(path):
+                found = _re.findall(r'<currencyCode>%s</currencyCode>\s*<rateNew>([0-9.]+)</rateNew>' % cur.upper(), open(path).read())
+                want = set(found) or None          # HMRC occasionally lists a currency twice in a month: either is the bundled rate
+            if rid not in resp:
+                findings.append({'prop': 'C20', 'kind': 'unanswered', 'case': 0, 'input': k, 'data': {'class': k}, 'detail': f'get_fx_rate {cur} {ym} was never answered'})
+                continue
+            kind_, _ = digest_of(resp[rid])
+            if want is None:
+                if kind_ != 'error':
+                    findings.append({'prop': 'C08', 'kind': 'mcp_fx_rate', 'case': 0, 'input': f'get_fx_rate {cur} {ym}', 'data': {},
+                                     'detail': f'get_fx_rate {cur} {ym}: no bundled rate exists, yet the server answered {json.dumps(resp[rid])[:200]}'})
+                continue
+            try:
+                got = json.loads(resp[rid]['result']['content'][0]['text'])
+                ok_ = any(Decimal(got['rate']) == Decimal(w) for w in want) and got.get('period') == ym and got.get('currency') == cur.upper()
+            except Exception:
+                got, ok_ = resp[rid], False
+            if not ok_:
+                findings.append({'prop': 'C08', 'kind': 'mcp_fx_rate', 'case': 0, 'input': f'get_fx_rate {cur} {ym}', 'data': {},
+                                 'detail': f'get_fx_rate {cur} {ym} returned {json.dumps(got)[:200]}; the bundled file says {sorted(want)}'})
+        log(f'[mcp] {len(probes)} get_fx_rate probes against the bundled XML text')
         # ---- malformed JSON whose offending line is long and full of multi-byte text, the error in the middle of the
         # line, at every byte alignment (anything that cuts the line at a fixed byte offset splits a character)
         wcls, script = dict(cls), []
